@@ -517,4 +517,45 @@ def RegsOk (d : Docs) (regs : List (Nat × Reg)) : Prop :=
 def RegistryClosed (d : Docs) (σ : Sigma) : Prop :=
   ∀ e ∈ σ, ∀ sn, d.src.find e.1 = some sn → ∀ q ∈ sn.ptrs, q = 0 ∨ q ∈ σ.map (·.1)
 
+/-- the source entities a block record is made of: BLOCK, ENDBLK, content -/
+def Node.parts (n : Node) : List Nat := n.block.toList ++ n.endblk.toList ++ n.content
+
+/-! ### the abstract specification of conflict resolution -/
+
+/-- What `ConflictPolicy` promises, independent of the kind of name container (LAYER / LTYPE / STYLE / DIMSTYLE / BLOCK_RECORD / UCS
+    tables, MATERIAL / MLINESTYLE / MLEADERSTYLE collections); `keys` = the case-folded names present in the target container:
+    * KEEP        a clashing name resolves to the target's existing entry, a free name is added unchanged
+    * XREF_PREFIX always a new entry `<xref>$<i>$<name>` with the least i whose name is free
+    * NUM_PREFIX  a free name is added unchanged, a clashing one as `$<i>$<name>` with the least free i
+    All comparisons are case-insensitive. -/
+def PolicySpec (pol : Policy) (xref : Str) (keys : List Str) (name : Str) (d : Decision) : Prop :=
+  match pol with
+  | .keep => (lower name ∈ keys → ∃ h, d = .useExisting h) ∧ (lower name ∉ keys → d = .add name)
+  | .xrefPrefix =>
+    ∃ i, d = .add (cand xref name i) ∧ lower (cand xref name i) ∉ keys ∧ ∀ j, j < i → lower (cand xref name j) ∈ keys
+  | .numPrefix =>
+    (lower name ∉ keys → d = .add name) ∧
+    (lower name ∈ keys →
+      ∃ i, d = .add (cand [] name i) ∧ lower (cand [] name i) ∉ keys ∧ ∀ j, j < i → lower (cand [] name j) ∈ keys)
+
+/-- a run of the specification over the copied entries of one container: each decision is taken against the keys as left by the
+    decisions before it (an added name is a key from then on) -/
+def SpecRun (spec : List Str → Str → Decision → Prop) : List Str → List (Str × Nat) → List Decision → Prop
+  | _, [], [] => True
+  | keys, (name, _) :: rest, d :: ds =>
+    spec keys name d ∧ SpecRun spec (match d with | .add n => keys ++ [lower n] | _ => keys) rest ds
+  | _, _, _ => False
+
+/-- the copies a restored block record owns: the copies of its BLOCK, its ENDBLK and of the content entities that were copied -/
+def ownedCopies (σ : Sigma) (sn : Node) (b e : Nat) : List Nat :=
+  σ.get b :: σ.get e :: (sn.content.map σ.get).filter (· ≠ 0)
+
+/-- the structural links of the restored copy of the source block record `s` (BLOCK `b`, ENDBLK `e`) in a target database: the copy
+    refers to the copies of BLOCK, ENDBLK and content in source order, and each of those copies is owned by it -/
+def Restored (tgt : Db) (σ : Sigma) (s : Nat) (sn : Node) (b e : Nat) : Prop :=
+  ∀ n ∈ tgt,
+    (n.handle = σ.get s →
+      n.block = some (σ.get b) ∧ n.endblk = some (σ.get e) ∧ n.content = (sn.content.map σ.get).filter (· ≠ 0)) ∧
+    (n.handle ≠ σ.get s → n.handle ∈ ownedCopies σ sn b e → n.owner = σ.get s)
+
 end EzdxfVerif.Xref
